@@ -67,6 +67,18 @@ def strip_zdir(zdir: PathLike, path: PathLike) -> str:
     return str(path).replace(f"{zdir}/", "")
 
 
+def atomic_write_text(path: PathLike, contents: str) -> None:
+    """Replaces the contents of {path} without ever exposing a partial file.
+
+    The new contents are written to a hidden sibling file which is then renamed
+    over {path}, so a crash mid-write leaves the old file intact.
+    """
+    path = Path(path)
+    tmp_path = path.with_name(f".{path.name}.tmp")
+    tmp_path.write_text(contents)
+    tmp_path.replace(path)
+
+
 def zprint(
     *msg_parts: str,
     style: str = "bold",
